@@ -109,6 +109,13 @@ class FuncC:
         self.witness_bind[name] = (FunS(args, res), bound_to)
         return self
 
+    def default_expr(self, param, expr):
+        """value of an omitted argument when the real default is not a literal (evaluated as a contract expression)"""
+        if not hasattr(self, "default_exprs"):
+            self.default_exprs = {}
+        self.default_exprs[param] = expr
+        return self
+
     def hint_exit(self, expr, label=None):
         """intermediate assertion at the normal exit: proved first, then available to the postconditions"""
         self.hints_l.append((expr, label or "hint%d" % len(self.hints_l)))
